@@ -1,4 +1,5 @@
 """C01 — each cycle's wire values are a consistent, order-independent settlement."""
+from props import C19
 from props.common_prog import judge_prog
 
 THEOREM_MODULES = ["Hcl.Theorems.C01", "Hcl.Tie.Fixed"]
@@ -27,4 +28,6 @@ def streams(tier, seed):
     return [{"name": "prog-" + p, "stream": "prog", "count": n * (3 if p == "dag" else 1), "extra": (p,), "judge": judge}
             for p in ("dag", "banks", "regfile", "memory", "status")] + [
         # programs with one planted fault: a faulty program that slips through is where the settlement stops being one
-        {"name": "prog-fault", "stream": "prog-fault", "count": 400 if q else 15000, "judge": judge}]
+        {"name": "prog-fault", "stream": "prog-fault", "count": 400 if q else 15000, "judge": judge},
+            # what the user sees goes through the command line and the two files: the real binary on accepted, rejected, big, not-UTF-8, bare-CR files, good and malformed images, all options and TIMEOUT forms (as in C19)
+            {"name": "cli", "stream": "cli", "count": 200 if q else 5000, "pygen": C19.pygen, "judge": C19.judge}]
